@@ -303,6 +303,15 @@ func WriteIfChanged(path string, content string) (changed bool) {
 
 type CmdFn func(args []string) int
 
+// RepoDir is the mosn source tree the harness was built against (VERIF_REPO, default /repo).
+// Use it instead of a literal "/repo" when reading files of the tree (sample configs etc.).
+func RepoDir() string {
+	if d := os.Getenv("VERIF_REPO"); d != "" {
+		return d
+	}
+	return "/repo"
+}
+
 func Main(cmds map[string]CmdFn) {
 	if len(os.Args) < 2 {
 		fmt.Fprintln(os.Stderr, "usage: vh-<group> <cmd> ...")
@@ -324,7 +333,7 @@ type GenFn func(repo string) (content string, err error)
 // obligation `<name>_translator_ok = true` in Props fails.
 func RunGen(gens map[string]GenFn, args []string) int {
 	fs := flag.NewFlagSet("gen", flag.ExitOnError)
-	repo := fs.String("repo", "/repo", "mosn source tree")
+	repo := fs.String("repo", RepoDir(), "mosn source tree")
 	out := fs.String("out", "/verif/coq/Gen", "output directory")
 	fs.Parse(args)
 	names := make([]string, 0, len(gens))
